@@ -106,8 +106,28 @@ def run(ctx):
                 rng.shuffle(reqs)
                 snap = prj.snapshot()
                 jbefore = len(dev.write_journal)
+                # sometimes the controller refuses one write service of the call (e.g. the 2nd fragment of a fragmented write):
+                # a request may then fail, but whatever is reported as success must still be exact
+                fired = []
+                if rng.random() < 0.2:
+                    nth = rng.choice([1, 2, 2, 3, 4])
+                    cnt = {"n": 0}
+                    stt = rng.choice([(0x02, ()), (0x05, ()), (0xFF, (0x2107,)), (0x0F, ())])
+
+                    def inject(rq, loc, nth=nth, cnt=cnt, stt=stt):
+                        if rq.service in (0x4D, 0x53, 0x4E):
+                            cnt["n"] += 1
+                            if cnt["n"] == nth:
+                                fired.append(loc.tag.full_name)
+                                return stt
+                        return None
+                    dev.inject_status = inject
                 args = [(r.text, r.value) for r in reqs]
                 st, out = sc.b.call("write", sc.drv.write, *args) if len(args) > 1 or rng.random() < 0.5 else sc.b.call("write", sc.drv.write, args[0][0], args[0][1])
+                dev.inject_status = None
+                if fired:
+                    dev.write_transfers.clear()
+                    res.count("calls-with-refused-service")
                 dev.finish_transfers()
                 res.count("write_calls")
                 if st != "ok":
@@ -128,7 +148,9 @@ def run(ctx):
                     res.seen(r.shape, r.kind, type(r.value).__name__, sc.label, min(r.nbytes() // 64, 80), len(reqs) == 1)
                     wit = {"request": r.text, "value": r.value, "config": sc.label, "conn_size": sc.conn_size, "n_requests": len(reqs), "bytes": r.nbytes(),
                            "tag_type": r.tag.dtype.name, "dims": r.tag.dims}
-                    if not t:
+                    if not t and r.tag.full_name in fired:
+                        res.count("requests-failed-by-injected-refusal")
+                    elif not t:
                         szc = "near-conn" if abs(r.nbytes() - sc.conn_size) <= 64 else "small" if r.nbytes() < sc.conn_size else "large"
                         res.violation(f"valid-write-fails:{r.shape.split(':')[-1]}:{'single' if len(reqs) == 1 or sc.micro else 'multi'}:{szc}",
                                       f"write({r.text!r}, {r.value!r:.80}) [{len(reqs)} requests, {r.nbytes()} bytes, {sc.label}, connection {sc.conn_size}] -> {t!r:.200}", wit)
